@@ -1109,6 +1109,240 @@ def stream_strip(ctx):
     ctx.exhaustive_parts.append(f"strip: all {len(ws)} whitespace code points and their neighbours in 6 positions")
 
 
+# --------------------------------------------------------------------------------------
+# the pointer heap: real edit histories (harness/heapsim.py, shared with C01/C02) against Model/TextHeap.lean
+# --------------------------------------------------------------------------------------
+HEAP_STR = ["NavigableString", "NavigableString", "Script", "Stylesheet", "TemplateString", "RubyTextString",
+            "RubyParenthesisString", "SubNS", "SubScript"]
+HEAP_PRE = ["Comment", "Comment", "CData", "Doctype", "Declaration", "ProcessingInstruction", "XMLProcessingInstruction",
+            "PreformattedString", "SubComment", "SubCData"]
+
+
+def lab_tok(s) -> str:
+    """heapsim texts are '.'-terminated label numbers: "7.1001." <-> model value [7, 1001]"""
+    t = [x for x in str.__str__(s).split(".") if x != ""]
+    return ",".join(t) if t else "e"
+
+
+def make_heap_world(r):
+    """fresh API objects of every string class (kind s = plain, c = preformatted), tags with hand-set interesting types"""
+    from . import heapsim
+    e = E()
+    c = e["cls"]
+    n_soup, n_tag, n_str, n_pre = r.choice([1, 1, 2]), r.randint(3, 8), r.randint(2, 6), r.randint(1, 4)
+    kinds = "r" * n_soup + "t" * n_tag + "s" * n_str + "c" * n_pre
+    w = heapsim.World.__new__(heapsim.World)
+    w.call_forms, w.kinds, w.twin, w.twin_choices = {}, kinds, False, None
+    w.base = e["BeautifulSoup"]("", "html.parser")
+    w.objs, w.lab, w.keep, w.next_plain = {}, {}, [], 1000
+    classes, interesting = [], []
+    for i, k in enumerate(kinds):
+        if k in "rt":
+            o = e["BeautifulSoup"]("", "html.parser") if k == "r" else w.base.new_tag(f"t{i}")
+            spec = ("many", PROP_MAIN)
+            if k == "t" and r.random() < 0.35:
+                j = r.random()
+                names = e["names"]
+                if j < 0.15:
+                    spec = None
+                elif j < 0.4:
+                    spec = ("one", (r.choice(names),))
+                else:
+                    spec = ("many", tuple(r.sample(names, r.randint(0, 3))), r.choice(("set", "tuple", "list", "frozenset")))
+                o.interesting_string_types = interesting_value(spec)
+                spec = None if spec is None else (spec[0], tuple(spec[1]))
+            set_exp(o, spec)
+            classes.append("NavigableString")
+            interesting.append(spec)
+        else:
+            cn = r.choice(HEAP_STR if k == "s" else HEAP_PRE)
+            o = c[cn](f"{i}.")
+            classes.append(cn)
+            interesting.append(("many", PROP_MAIN))
+        w.register(o, i)
+    return w, kinds, classes, interesting
+
+
+def rebuild_heap_world(kinds, classes, interesting):
+    from . import heapsim
+    e = E()
+    c = e["cls"]
+    w = heapsim.World.__new__(heapsim.World)
+    w.call_forms, w.kinds, w.twin, w.twin_choices = {}, kinds, False, None
+    w.base = e["BeautifulSoup"]("", "html.parser")
+    w.objs, w.lab, w.keep, w.next_plain = {}, {}, [], 1000
+    for i, k in enumerate(kinds):
+        if k in "rt":
+            o = e["BeautifulSoup"]("", "html.parser") if k == "r" else w.base.new_tag(f"t{i}")
+            spec = interesting[i]
+            spec = None if spec is None else tuple(spec)
+            if spec != ("many", PROP_MAIN) and not (spec is not None and spec[0] == "many" and tuple(spec[1]) == PROP_MAIN and len(spec) == 2):
+                o.interesting_string_types = interesting_value(spec)
+            set_exp(o, None if spec is None else (spec[0], tuple(spec[1])))
+        else:
+            o = c[classes[i]](f"{i}.")
+        w.register(o, i)
+    return w
+
+
+def heap_line(mode, kinds, ops, classes, interesting, qtoks):
+    e = E()
+    cls = ".".join(str(cls_code(e["cls"][n])) for n in classes)
+    ints = ";".join("_" if (sp is not None and sp[0] == "many" and tuple(sp[1]) == PROP_MAIN) else interesting_tok(None if sp is None else (sp[0], tuple(sp[1])))
+                    for sp in interesting)
+    return f"c13 heap {mode} {kinds} {';'.join(ops) if ops else '-'} {cls} {ints} {len(qtoks)} {' '.join(qtoks)}"
+
+
+def heap_query(w, label, o, q):
+    """-> (model token, real reply, oracle reply, identity ok); texts canonicalised as label numbers"""
+    e = E()
+    op = q[0]
+    if op == "ST":
+        got = list(o.strings)
+        want = o_all_strings(o, False, ("d",))
+        ident = len(got) == len(want) and all(a is b[0] for a, b in zip(got, want))
+        f = lambda l: "[" + ";".join(lab_tok(x) for x in l) + "]"
+        return f"{label}/ST", f(got), f([x[1] for x in want]), ident
+    if op == "TX":
+        got = o.text
+        want = "".join(str.__str__(x[1]) for x in o_all_strings(o, False, ("d",)))
+        return f"{label}/TX", lab_tok(got), lab_tok(want), True
+    if op == "SP":
+        got, want = o.string, o_string(o)
+        f = lambda x: "none" if x is None else f"{cls_code(type(x))}:{lab_tok(x)}@{w.label(x)}"
+        return f"{label}/SP", f(got), f(want), got is want
+    if op == "A":
+        _, strip, tspec = q
+        kw = {} if tspec[0] == "d" else {"types": e["el"].PageElement.default if tspec[0] == "D" else types_value(tspec)}
+        got = list(o._all_strings(strip, **kw))
+        want = o_all_strings(o, strip, norm_tspec(tspec))
+        ident = len(got) == len(want) and all(a is b[0] for a, b in zip(got, want))
+        f = lambda l: "[" + ";".join(lab_tok(x) for x in l) + "]"
+        return f"{label}/A/0/{types_tok(norm_tspec(tspec))}", f(got), f([x[1] for x in want]), ident
+    _, strip, tspec, sepnums = q
+    sep = "".join(f"{n}." for n in sepnums)
+    kw = {} if tspec[0] == "d" else {"types": e["el"].PageElement.default if tspec[0] == "D" else types_value(tspec)}
+    got = o.get_text(sep, strip, **kw)
+    want = sep.join(str.__str__(x[1]) for x in o_all_strings(o, strip, norm_tspec(tspec)))
+    septok = ",".join(map(str, sepnums)) if sepnums else "-"
+    return f"{label}/G/0/{types_tok(norm_tspec(tspec))}/{septok}", lab_tok(got), lab_tok(want), True
+
+
+def heap_queries_for(r, o):
+    NS = E()["el"].NavigableString
+    present = list(dict.fromkeys(type(x) for x in o_strings_below(o))) if is_tag(o) else [type(o)]
+    qs = [("ST",), ("TX",), ("SP",)]
+    for _ in range(2):
+        qs.append(("A", False, rand_tspec(r, present)))
+    for _ in range(2):
+        qs.append(("G", False, rand_tspec(r, present), r.choice(([], [900], [900, 901], [32]))))
+    return qs
+
+
+def run_heap_case(ctx, case, stream="heap"):
+    """case = {kinds, classes, interesting, ops (already known to succeed), seed} -> (lines, meta) for the driver"""
+    from . import heapsim
+    w = rebuild_heap_world(case["kinds"], case["classes"], case["interesting"])
+    for op in case["ops"]:
+        st = w.apply(op)
+        if st != "ok":
+            return None
+    return w
+
+
+def heap_start(r):
+    from . import heapsim
+    if r.random() < 0.35:
+        w, kinds, prefix = heapsim.make_world(r, True)
+        classes = ["Comment" if k == "c" else "NavigableString" for k in kinds]
+        interesting = [("many", PROP_MAIN)] * len(kinds)
+        for o in w.objs.values():
+            if is_tag(o):
+                set_exp(o, ("many", PROP_MAIN))
+        return w, kinds, classes, interesting, list(prefix), True
+    w, kinds, classes, interesting = make_heap_world(r)
+    return w, kinds, classes, interesting, [], False
+
+
+def stream_heap(ctx, n_hist):
+    from . import heapsim
+    from collections import Counter
+    e = E()
+    lines, metas = [], []
+    for hi in range(n_hist):
+        r = ctx.rng("heap", hi)
+        state = r.getstate()
+        w, kinds, classes, interesting, prefix, parsed = heap_start(r)
+        ops = list(prefix)
+        stats = Counter()
+        for s_ in range(r.choice((2, 4, 6, 9, 12))):
+            op = heapsim.gen_op(r, w, stats)
+            if op is None:
+                break
+            st = w.apply(op)
+            if st != "ok":
+                # a failed call may have half-happened: start again and replay the successful calls only
+                ctx.count("heap:history-stopped-" + st)
+                import random as _random
+                r2 = _random.Random()
+                r2.setstate(state)
+                w, kinds, classes, interesting, prefix, parsed = heap_start(r2)
+                for o2 in ops[len(prefix):]:
+                    w.apply(o2)
+                break
+            ops.append(op)
+            ctx.count("heap-op:" + op.split(":")[0])
+        ctx.count("heap:" + ("parsed-start" if parsed else "api-start"))
+        case = {"op": "heap", "kinds": kinds, "classes": classes, "interesting": [None if x is None else list(x) for x in interesting],
+                "ops": ops, "parsed": parsed}
+        qtoks, qs = [], []
+        for label, o in w.live():
+            if o.parent is None and not is_tag(o):
+                pass
+            for q in heap_queries_for(r, o):
+                try:
+                    tok, real, want, ident = heap_query(w, label, o, q)
+                except RecursionError:
+                    raise
+                except Exception as ex:
+                    tok, real, want, ident = f"{label}/ST", f"raised {type(ex).__name__}: {ex}", "<no exception>", True
+                ctx.case(None)
+                ctx.count("heap-q:" + q[0])
+                qd = [q[0]] + ([q[1], types_desc(q[2])] if q[0] in ("A", "G") else []) + ([q[3]] if q[0] == "G" else [])
+                if real != want or not ident:
+                    ctx.count("heap:oracle-differs")
+                    if sum(1 for v in ctx.violations if v["stream"] == "heap") < 6:
+                        ctx.violation("after this edit history, text extraction (through the next_element chain) differs from the recursive "
+                                      "evaluator over .contents" if real != want else "the yielded object is not the string node of the tree (identity)",
+                                      case=case | {"receiver": label, "query": qd}, expected=want, observed=real, stream="heap")
+                qtoks.append(tok)
+                qs.append((label, qd, real, want))
+        if any(is_tag(o) and o.parent is not None and o.contents for _, o in w.live()):
+            ctx.nontrivial.add(5_000_000 + hi)
+        lines.append((kinds, ops, classes, interesting, qtoks))
+        metas.append((case, qs))
+    drv = Driver()
+    reported = 0
+    for mode in ("heap", "tree"):
+        rep = drv.ask([heap_line(mode, *l) for l in lines])
+        for (case, qs), ans in zip(metas, rep):
+            parts = ans.split(" | ") if qs else []
+            if len(parts) != len(qs):
+                parts = [ans] * len(qs)
+            for (label, qd, real, want), a in zip(qs, parts):
+                if mode == "tree" and "@" in real:
+                    real = real.split("@")[0]
+                if a != real:
+                    ctx.corr_disagreements += 1
+                    ctx.count(f"heap:model-{mode}-disagrees")
+                    if reported < 6:
+                        reported += 1
+                        ctx.violation(f"Lean {'pointer-heap mirror' if mode == 'heap' else 'tree mirror on toNode'} and implementation disagree",
+                                      case=case | {"receiver": label, "query": qd}, observed=real, expected=want, model=a,
+                                      stream="heap-correspondence", no_failing_input=(real == want))
+    ctx.count("heap:histories", n_hist)
+
+
 def stream_corpus(ctx, batch):
     from .common import CORPUS
     d = CORPUS / "C13"
@@ -1149,6 +1383,7 @@ def run(ctx: Ctx):
     stream_strip(ctx)
     stream_string_container(ctx)
     stream_positions(ctx, batch)
+    stream_heap(ctx, ctx.n(500, 5000))
     stream_malformed(ctx, batch, ctx.n(600, 6000))
     stream_random(ctx, batch, ctx.n(1500, 15000))
     batch.flush()
@@ -1206,6 +1441,23 @@ def replay(path):
         print("implementation:", got)
         print("property demands:", want)
         return 0 if got == want else 1
+    if c.get("op") == "heap":
+        w = run_heap_case(None, c)
+        if w is None:
+            print("the recorded history no longer runs to the end on this tree")
+            return 1
+        o = w.objs.get(c["receiver"])
+        if o is None:
+            print("receiver", c["receiver"], "does not exist after the history")
+            return 1
+        qd = c["query"]
+        q = (qd[0],) if len(qd) == 1 else (("A", qd[1], types_from_desc(qd[2])) if qd[0] == "A" else ("G", qd[1], types_from_desc(qd[2]), qd[3]))
+        tok, real, want, ident = heap_query(w, c["receiver"], o, q)
+        print("history:", c["kinds"], ";".join(c["ops"]), "classes:", c["classes"])
+        print("receiver:", c["receiver"], "query:", qd)
+        print("implementation:", real)
+        print("property demands:", want, "" if ident else "(and the very string objects of the tree)")
+        return 0 if (real == want and ident) else 1
     if c.get("op") == "ancestor-rule":
         soup, sc = build(c["recipe"] | {"ops": []})
         bad = ancestor_rule_failures(soup, sc)
